@@ -72,3 +72,4 @@ revert f23e696 C06
 revert b8305ae C02
 revert 8c12c05 C04
 revert 536f122 C13
+revert 9bea1b7 C04
